@@ -512,3 +512,51 @@ func (a *AEAD) Decrypt(data, key []byte) ([]byte, error) {
 	}
 	return pt, err
 }
+
+// Snapshot returns a deep copy of the table; Restore puts it back (drivers corrupt rows per case).
+func (w *World) Snapshot() []Row {
+	rows := w.Rows()
+	for i := range rows {
+		rows[i].Key = append([]byte(nil), rows[i].Key...)
+		if rows[i].Parent != nil {
+			p := *rows[i].Parent
+			rows[i].Parent = &p
+		}
+	}
+	return rows
+}
+
+func (w *World) Restore(rows []Row) {
+	w.mu.Lock()
+	defer w.mu.Unlock()
+	w.table = map[tkey]*Row{}
+	w.order = nil
+	for i := range rows {
+		r := rows[i]
+		r.Key = append([]byte(nil), r.Key...)
+		if r.Parent != nil {
+			p := *r.Parent
+			r.Parent = &p
+		}
+		k := tkey{r.ID, r.Created}
+		w.table[k] = &r
+		w.order = append(w.order, k)
+	}
+}
+
+// Mutate applies fn to the row (id, created) if present; Delete removes it.
+func (w *World) MutateRow(id string, created int64, fn func(r *Row)) bool {
+	w.mu.Lock()
+	defer w.mu.Unlock()
+	r, ok := w.table[tkey{id, created}]
+	if ok {
+		fn(r)
+	}
+	return ok
+}
+
+func (w *World) DeleteRow(id string, created int64) {
+	w.mu.Lock()
+	defer w.mu.Unlock()
+	delete(w.table, tkey{id, created})
+}
